@@ -746,3 +746,88 @@ func (c *Ctx) ruleNonEmptyFrag() {
 		c.unresolved("fragment-list appends in Process")
 	}
 }
+
+// R-CHILDPERSIST (C36): persisting a state writes its child tries whatever the shape of the top trie.
+func (c *Ctx) ruleChildPersist() {
+	c.doc("R-CHILDPERSIST", inmemDir+": in the function that walks t.childTries to persist them, no successful return is reachable from a node write (db.Put / writeDirtyNode of the root) without passing that walk — a root that is a leaf must not skip its child tries; the function is WriteDirty or reached from it")
+	sp := c.ssaPkg(inmemDir)
+	if sp == nil {
+		return
+	}
+	n := 0
+	for _, f := range allFuncs(c, sp) {
+		var walks []ssa.Instruction
+		eachInstr(f, func(_ *ssa.BasicBlock, _ int, in ssa.Instruction) {
+			rg, ok := in.(*ssa.Range)
+			if !ok {
+				return
+			}
+			if _, fv, ok := fieldLoad(rg.X); ok && fv != nil && fv.Name() == "childTries" {
+				walks = append(walks, rg)
+			}
+		})
+		if len(walks) == 0 {
+			continue
+		}
+		// only the persisting walk: its body calls writeDirtyNode
+		persists := false
+		var writes []ssa.Instruction
+		eachInstr(f, func(_ *ssa.BasicBlock, _ int, in ssa.Instruction) {
+			call, ok := in.(*ssa.Call)
+			if !ok {
+				return
+			}
+			if cal := call.Call.StaticCallee(); cal != nil && cal.Name() == "writeDirtyNode" {
+				if instrReaches(walks[0], call) && !reachesAvoidingInstr(f.Blocks[0].Instrs[0], call, walks[0]) {
+					persists = true // inside/after the walk
+				} else {
+					writes = append(writes, call)
+				}
+			}
+			if call.Call.IsInvoke() && call.Call.Method.Name() == "Put" {
+				writes = append(writes, call)
+			}
+		})
+		if !persists {
+			continue
+		}
+		n++
+		bad := ""
+		for _, b := range f.Blocks {
+			if len(b.Instrs) == 0 {
+				continue
+			}
+			ret, ok := b.Instrs[len(b.Instrs)-1].(*ssa.Return)
+			if !ok || len(ret.Results) == 0 {
+				continue
+			}
+			// success returns only: the error result is the nil constant, or a value the walk cannot have produced
+			last := resultOf(ret, len(ret.Results)-1)
+			failure := false
+			if call, isCall := last.(*ssa.Call); isCall {
+				switch calleeName(&call.Call) {
+				case "fmt.Errorf", "errors.New":
+					failure = true
+				}
+			}
+			if guardedBy(b, func(cond ssa.Value, truth bool) bool {
+				e, neq, ok := nilCmp(cond)
+				return ok && e == last && truth == neq
+			}) {
+				failure = true // `if err != nil { return err }`
+			}
+			if failure {
+				continue
+			}
+			for _, w := range writes {
+				if instrReaches(w, ret) && reachesAvoidingInstr(w, ret, walks[0]) {
+					bad = fmt.Sprintf("the return at %s is reachable from the node write at %s without walking the child tries", c.pos(ret.Pos()), c.pos(w.Pos()))
+				}
+			}
+		}
+		c.ob("R-CHILDPERSIST", relName(f.String())+":child-tries-always-written", f.Pos(), bad == "", bad)
+	}
+	if n == 0 {
+		c.ob("R-CHILDPERSIST", "child-tries-walk", token.NoPos, false, "no function of "+inmemDir+" persists t.childTries")
+	}
+}
